@@ -210,8 +210,9 @@ Theorem C07_decimal_numeric :
 Proof. exact decimal_numeric. Qed.
 Print Assumptions C07_decimal_numeric.
 
-(* ... and when d fits DECIMAL(p, s) in the SQL sense (its integer part has at most p - s
-   digits: ndig c + e + s <= p) the result is exactly c * 10^(e+s) at exponent -s. *)
+(* ... and UNDER THE PREMISE THAT d FITS DECIMAL(p, s) in the SQL sense (its integer part has
+   at most p - s digits: c = 0 \/ ndig c + (e + s) <= p) the result is exactly c * 10^(e+s) at
+   exponent -s.  Without that premise the exponent claim is false (C07_decimal_exponent_refuted). *)
 Theorem C07_decimal_exact :
   forall ft fb rp jl jd sc (p s : Z) (neg : bool) (c e : Z) (ws1 ws2 : list N),
   1 <= p <= 38 -> 0 <= s <= safe_scale_cap -> - s <= e <= 1000 -> 0 <= c ->
@@ -264,34 +265,32 @@ Theorem C07_class_elements :
 Proof. exact class_elements. Qed.
 Print Assumptions C07_class_elements.
 
-(* ---- FlatColumn(default=x).
-   Full statement: the default is cast like OrsoTypes.<t>.parse(x, length=, precision=,
-   scale=, element_type= of the column), for every x.  Proved: a truthy default is cast
-   like parse(x) WITHOUT keyword arguments (any exception becoming ValueError); a falsy one
-   is returned as it is.  What is missing is refuted below (candidate findings F-C07-3/4). *)
-Theorem C07_column_default_partial :
-  forall ft fb rp jl jd sc (t : otype) (x : pyval),
-  (truthy x = true ->
-   column_default ft fb rp jl jd sc t x = match parse ft fb rp jl jd sc t nokw x with ROk r => ROk r | RErr _ => RErr XValue end) /\
-  (truthy x = false -> column_default ft fb rp jl jd sc t x = ROk x).
+(* ---- FlatColumn(type=t, length=, precision=, scale=, element_type=, default=x).default
+   (F-C07-3 / F-C07-4 fixed): for a typed column it is the cast of x with the column's own
+   keyword arguments, for EVERY x - None and falsy defaults included - any exception becoming
+   ValueError; an untyped column keeps x.  The column's keyword arguments are the declared
+   ones, except that a DECIMAL column without precision takes decimal.getcontext().prec and
+   without scale int(0.75 * precision) (both regenerated).  Hence every theorem above about
+   [parse t k] holds for column defaults with k the column's attributes. ---- *)
+Theorem C07_column_default :
+  forall ft fb rp jl jd sc (t : otype) (k : kwargs) (x : pyval),
+  (untyped t = false ->
+   column_default ft fb rp jl jd sc t k x = wrap_value_error (parse ft fb rp jl jd sc t (column_kwargs t k) x)) /\
+  (untyped t = true -> column_default ft fb rp jl jd sc t k x = ROk x) /\
+  (t <> T_DECIMAL -> column_kwargs t k = k) /\
+  column_kwargs T_DECIMAL k =
+    (let p := match kw_precision k with Some p => p | None => context_prec end in
+     let s := match kw_scale k with Some s => s | None => Z.quot (column_scale_num * p) column_scale_den end in
+     mkkw (kw_length k) (Some p) (Some s) (kw_element k)).
 Proof. exact column_default_spec. Qed.
-Print Assumptions C07_column_default_partial.
+Print Assumptions C07_column_default.
 
-(* F-C07-4: the bytes rendering b"" of the VARCHAR value "" stays bytes as a default *)
-Theorem C07_column_default_falsy_refuted :
-  forall ft fb rp jl jd sc,
-  exists x, column_default ft fb rp jl jd sc T_VARCHAR x = ROk x /\ Some (class_of x) <> python_class T_VARCHAR /\
-            parse ft fb rp jl jd sc T_VARCHAR nokw x = ROk (PStr []).
-Proof. exact column_default_falsy_refuted. Qed.
-Print Assumptions C07_column_default_falsy_refuted.
-
-(* F-C07-3: the default of a VARCHAR[3] column is not cut to 3 characters *)
-Theorem C07_column_default_length_refuted :
-  forall ft fb rp jl jd sc,
-  exists t, column_default ft fb rp jl jd sc T_VARCHAR (PStr t) = ROk (PStr t) /\
-            parse ft fb rp jl jd sc T_VARCHAR (mkkw (Some 3) None None None) (PStr t) <> ROk (PStr t).
-Proof. exact column_default_length_refuted. Qed.
-Print Assumptions C07_column_default_length_refuted.
+(* a default that is not None comes out with the column type's class, or the constructor raised *)
+Theorem C07_column_class :
+  forall ft fb rp jl jd sc (t : otype) (k : kwargs) (x r : pyval),
+  In t value_types -> x <> PNone -> column_default ft fb rp jl jd sc t k x = ROk r -> Some (class_of r) = python_class t.
+Proof. exact column_class. Qed.
+Print Assumptions C07_column_class.
 
 (* ---- non-vacuity ---- *)
 (* INTEGER: a negative number, padded *)
@@ -353,3 +352,14 @@ Example C07_array_date_nonvacuous :
   parse ft fb rp jl jd sc T_TIMESTAMP nokw (PStr (render_datetime 2024 2 29 23 59 58 250000)) = ROk (PDatetime 2024 2 29 23 59 58 0) /\
   parse ft fb rp jl jd sc T_DATE nokw (PDatetime 2024 2 29 23 59 58 250000) = ROk (PDate 2024 2 29).
 Proof. intros. vm_compute. repeat split; reflexivity. Qed.
+
+(* FlatColumn: the witnesses of F-C07-3 / F-C07-4, an untyped column, a default that cannot be cast *)
+Example C07_column_nonvacuous :
+  forall ft fb rp jl jd sc,
+  column_default ft fb rp jl jd sc T_VARCHAR (mkkw (Some 3) None None None) (PStr [97; 98; 99; 100; 101; 102]%N) = ROk (PStr [97; 98; 99]%N) /\
+  column_default ft fb rp jl jd sc T_VARCHAR nokw (PBytes []) = ROk (PStr []) /\
+  column_default ft fb rp jl jd sc T_DOUBLE nokw (PInt 0) = ROk (PFloat 0) /\
+  column_kwargs T_DECIMAL nokw = mkkw None (Some context_prec) (Some 21) None /\
+  column_default ft fb rp jl jd sc T__MISSING_TYPE (mkkw (Some 3) None None None) (PStr [97; 98; 99; 100]%N) = ROk (PStr [97; 98; 99; 100]%N) /\
+  column_default ft fb rp jl jd sc T_INTEGER nokw (PStr [120]%N) = RErr XValue.
+Proof. exact column_witnesses. Qed.
